@@ -9,9 +9,10 @@ P.cls('Context', fields=dict(labels='dict[str,Node]', persistentLabels='dict[str
 
 # fresh placeholder node created by  self['Macro']()  (Context.__getitem__ + class instantiation)
 P.fn('new_macro', params={}, returns='Node',
-     ensures=['fresh(result)', 'fresh(result.idref)'], allocates=True,
+     ensures=['fresh(result)', 'fresh(result.idref)', 'all(k not in result.idref for k in Strs())',
+              'all(implies(allocated(x) and fresh(x), x is result) for x in Refs("Node"))'], allocates=True,
      modifies=[Mod('id', 'False'), Mod('idref', 'False'), Mod('dict:str,Node', 'False')], trusted=True,
-     notes="self['Macro']() creates a new Macro node with its own (new) idref dictionary")
+     notes="self['Macro']() creates one new Macro node with its own (new, empty) idref dictionary")
 
 # separation: the context's three tables and every node's idref dictionary are pairwise different objects
 SEP = ['self.labels is not self.persistentLabels', 'self.labels is not self.refs', 'self.persistentLabels is not self.refs',
@@ -20,11 +21,22 @@ SEP = ['self.labels is not self.persistentLabels', 'self.labels is not self.refs
        'all(implies(k in self.refs, not isnone(self.refs[k]) and self.refs[k] is not self.labels and self.refs[k] is not self.refs) for k in Strs())']
 
 L = 'str_strip(label)'
+
+
+def same_idref(o):
+    return 'all((k in %s.idref) == old(k in %s.idref) and %s.idref[k] is old(%s.idref[k]) for k in Strs())' % (o, o, o, o)
+
+
+# the representation invariant the two operations keep (label: as long as no node gets a second label)
+WF = SEP + ['all(implies(k in self.refs, all(isinstance(self.refs[k][j], Node) for j in range(len(self.refs[k])))) for k in Strs())',
+            'all(implies(allocated(x), all(implies(k in x.idref, not isnone(x.idref[k])) for k in Strs())) for x in Refs("Node"))',
+            'all(implies(k in self.labels, not isnone(self.labels[k])) for k in Strs())']
+IDC = 'all(implies(k in self.labels, not isnone(self.labels[k]) and self.labels[k].id == k) for k in Strs())'
 UNCH_REFS = 'all((k in self.refs) == old(k in self.refs) and self.refs[k] is old(self.refs[k]) for k in Strs())'
 P.fn(F + 'Context.ref', name='Context.ref',
      params=dict(self='Context', obj='Node', name='str', label='str'), returns='none',
-     requires=SEP,
-     ensures=[
+     requires=WF,
+     ensures=WF + [
          # empty label: nothing happens
          'implies(%s == "", all((k in obj.idref) == old(k in obj.idref) and obj.idref[k] is old(obj.idref[k]) for k in Strs()))' % L,
          # known label: resolved to exactly the labelled object
@@ -32,6 +44,13 @@ P.fn(F + 'Context.ref', name='Context.ref',
          # unknown label: a fresh placeholder carrying the label, and obj is queued under it
          'implies(%s != "" and not old(%s in self.labels), name in obj.idref and fresh(obj.idref[name]) and obj.idref[name].id == %s '
          'and %s in self.refs and len(self.refs[%s]) >= 1 and self.refs[%s][len(self.refs[%s]) - 1] is obj)' % (L, L, L, L, L, L, L),
+         # the queue under this label grows by exactly obj at its end; the other queues stay
+         'implies(%s != "" and not old(%s in self.labels) and old(%s in self.refs), len(self.refs[%s]) == old(len(self.refs[%s])) + 1 and '
+         'all(self.refs[%s][j] is old(seq(self.refs[%s]))[j] for j in range(len(self.refs[%s]) - 1)))' % (L, L, L, L, L, L, L, L),
+         'implies(%s != "" and not old(%s in self.labels) and not old(%s in self.refs), len(self.refs[%s]) == 1)' % (L, L, L, L),
+         'all(implies(k != %s, (k in self.refs) == old(k in self.refs) and self.refs[k] is old(self.refs[k])) for k in Strs())' % L,
+         # the idref of every other object is untouched
+         'all(implies(allocated(x) and not fresh(x) and x is not obj, %s) for x in Refs("Node"))' % same_idref('x'),
          # the other entries of obj.idref and the label table are untouched
          'all(implies(k != name, (k in obj.idref) == old(k in obj.idref) and obj.idref[k] is old(obj.idref[k])) for k in Strs())',
          'all((k in self.labels) == old(k in self.labels) and self.labels[k] is old(self.labels[k]) for k in Strs())',
@@ -49,22 +68,35 @@ RESOLVE = '%s != "" and %s and (%s in self.labels)' % (L, PEND, L)      # the ba
 
 def final_idref(o):
     """Entries of o.idref after back-patching: placeholders for the label (by their id) now point at labels[label]."""
-    return ('all((k in %s.idref) == old(k in %s.idref) and %s.idref[k] is '
-            '(self.labels[%s] if (old(k in %s.idref) and old(%s.idref[k]).id == %s) else old(%s.idref[k])) for k in Strs())'
-            % (o, o, o, L, o, o, L, o))
+    return ('all((k in %s.idref) == old(k in %s.idref) and implies(old(k in %s.idref), %s.idref[k] is '
+            '(self.labels[%s] if old(%s.idref[k]).id == %s else old(%s.idref[k]))) for k in Strs())'
+            % (o, o, o, o, L, o, L, o))
 
 
-def same_idref(o):
-    return 'all((k in %s.idref) == old(k in %s.idref) and %s.idref[k] is old(%s.idref[k]) for k in Strs())' % (o, o, o, o)
+def FIN(x):
+    """inside the loops (label is the stripped local): x.idref after back-patching"""
+    return ('all((k in %s.idref) == old(k in %s.idref) and implies(old(k in %s.idref), %s.idref[k] is '
+            '(self.labels[label] if old(%s.idref[k]).id == label else old(%s.idref[k]))) for k in Strs())'
+            % (x, x, x, x, x, x))
+
+
+def SAME(x):
+    return 'all((k in %s.idref) == old(k in %s.idref) and %s.idref[k] is old(%s.idref[k]) for k in Strs())' % (x, x, x, x)
+
+
+def PATCH(v):
+    return '(self.labels[label] if %s.id == label else %s)' % (v, v)
+
+
+def FINVAL(x, k):
+    return '(self.labels[label] if old(%s.idref[%s]).id == label else old(%s.idref[%s]))' % (x, k, x, k)
 
 
 INLIST = 'any(0 <= j and j < len(old(seq(self.refs[%s]))) and old(seq(self.refs[%s]))[j] is x for j in Ints())' % (L, L)
 P.fn(F + 'Context.label', name='Context.label',
      params=dict(self='Context', label='str', node='Node?=None'), returns='none',
-     requires=SEP + ['all(implies(k in self.refs, all(isinstance(self.refs[k][j], Node) for j in range(len(self.refs[k])))) for k in Strs())',
-                     'all(implies(allocated(x), all(implies(k in x.idref, not isnone(x.idref[k])) for k in Strs())) for x in Refs("Node"))',
-                     'all(implies(k in self.labels, not isnone(self.labels[k]) and self.labels[k].id == k) for k in Strs())'],
-     ensures=[
+     requires=WF + [IDC],
+     ensures=WF + [
          # the label names the node and becomes its identifier
          'implies(%s != "" and %s, %s in self.labels and self.labels[%s] is %s and self.persistentLabels[%s] is %s and %s.id == %s)'
          % (L, HASN, L, L, N, L, N, N, L),
@@ -73,6 +105,12 @@ P.fn(F + 'Context.label', name='Context.label',
          # pending references to this label are resolved and the queue entry disappears
          'implies(%s, %s not in self.refs)' % (RESOLVE, L),
          'all(implies(allocated(x), not fresh(x)) for x in Refs("Node"))',      # no node is created
+         # back-patching: in every object queued under this label, each entry whose placeholder carries the label now points at the labelled node
+         # (the other entries stay); the idref of every object that was not queued is untouched -- however often an object was queued
+         'implies(%s, all(%s for j in range(len(old(seq(self.refs[%s]))))))' % (RESOLVE, final_idref('old(seq(self.refs[%s]))[j]' % L), L),
+         'implies(%s, all(implies(allocated(x) and all(old(seq(self.refs[%s]))[j] is not x for j in range(len(old(seq(self.refs[%s]))))), %s) for x in Refs("Node")))'
+         % (RESOLVE, L, L, same_idref('x')),
+         'implies(not (%s), all(implies(allocated(x), %s) for x in Refs("Node")))' % (RESOLVE, same_idref('x')),
          # nothing else is touched: other queues, and idref of every object not queued under this label
          'all(implies(k != %s or not (%s), (k in self.refs) == old(k in self.refs) and self.refs[k] is old(self.refs[k])) for k in Strs())' % (L, RESOLVE),
      ],
@@ -86,6 +124,8 @@ P.fn(F + 'Context.label', name='Context.label',
              'seq(rs) == old(seq(self.refs[%s]))' % L,
              'self.labels[label].id == label',
              'all(allocated(rs[j]) and rs[j].idref is not self.refs and rs[j].idref is not self.labels and rs[j].idref is not self.persistentLabels for j in range(len(rs)))',
+             'all(%s for j in range(i))' % FIN('rs[j]'),
+             'all(implies(allocated(x) and all(rs[j] is not x for j in range(i)), %s) for x in Refs("Node"))' % SAME('x'),
          ], modifies=[Mod('dict:str,Node', 'any(allocated(x) and r is x.idref for x in Refs("Node"))')]),
          1: Loop(index='m', seq='its', inv=[
              'all(implies(allocated(x), not fresh(x)) for x in Refs("Node"))', 'label == old(%s)' % L, 'label in self.labels', 'label in self.refs', 'rs is self.refs[label]', 'i <= len(rs)', 'i >= 1', 'obj is rs[i - 1]',
@@ -94,12 +134,15 @@ P.fn(F + 'Context.label', name='Context.label',
              'all((k in obj.idref) == any(its[j][0] == k for j in range(len(its))) for k in Strs())',
              'all(obj.idref[its[j][0]] is (self.labels[label] if its[j][1].id == label else its[j][1]) for j in range(m))',
              'all(obj.idref[its[j][0]] is its[j][1] for j in range(m, len(its)))',
-         ], modifies=[Mod('dict:str,Node', 'r is obj.idref')]),
+             'all(implies(rs[j] is not obj, %s) for j in range(i - 1))' % FIN('rs[j]'),
+             'all(implies(allocated(x) and x is not obj and all(rs[j] is not x for j in range(i - 1)), %s) for x in Refs("Node"))' % SAME('x'),
+             'all((k in obj.idref) == old(k in obj.idref) for k in Strs())',
+             'all(%s is %s for t in range(len(its)))' % (PATCH('its[t][1]'), FINVAL('obj', 'its[t][0]')),
+         ], at_exit=[FIN('obj')], modifies=[Mod('dict:str,Node', 'r is obj.idref')]),
      })
 
-P.unverified_surrounding('Context.label back-patching clause (every pending reference whose placeholder carries the label now points at the '
-                         'labelled node; idref of other objects unchanged): inner-loop step proved (loop1 invariants), the lifting over the '
-                         'outer loop with duplicate queue entries is checked bounded in native/C09.py (bounded/label-ref-orders), not proved')
+P.unverified_surrounding('castLabel / castRef argument plumbing (TeX.py), Crossref.py label/ref/pageref, Macro.refstepcounter setting currentlabel, bibliography keys: '
+                         'bounded native documents with labels and references in every order (bounded/label-ref-orders)')
 P.assume('Macro.id and Macro.idref behave as stored attributes for nodes whose id has been set (property getters/setters, ground/id-property)')
 
 # ---------------------------------------------------------------- lifting lemmas over the two contracts
@@ -112,9 +155,26 @@ ctx.label(l, n)
 ctx.ref(o, k, l)
 """)
 P.client('L2_dangling', dict(ctx='Context', l='str', o='Node', k='str'),
-        requires=[r.replace('self', 'ctx') for r in SEP] + ['str_strip(l) != ""', 'str_strip(l) not in ctx.labels'],
+        requires=[r.replace('self', 'ctx') for r in WF] + ['str_strip(l) != ""', 'str_strip(l) not in ctx.labels'],
         ensures=['k in o.idref', 'all(implies(q in ctx.labels, ctx.labels[q] is not o.idref[k]) for q in Strs())',
                  'o.idref[k].id == str_strip(l)'],
         body="""
 ctx.ref(o, k, l)
+""")
+# forward reference: the reference comes first (placeholder, queued), the label later -- the reference ends up at the labelled node
+P.client('L1b_ref_then_label', dict(ctx='Context', l='str', n='Node', o='Node', k='str'),
+        requires=LREQ + ['str_strip(l) != ""', 'str_strip(l) not in ctx.labels', 'str_strip(l) not in ctx.refs'],
+        ensures=['k in o.idref', 'o.idref[k] is n', 'n.id == str_strip(l)', 'str_strip(l) not in ctx.refs'],
+        body="""
+ctx.ref(o, k, l)
+ctx.label(l, n)
+""")
+# two forward references (possibly from the same object, possibly queued twice) and then the label: both end up at the labelled node
+P.client('L1c_two_refs_then_label', dict(ctx='Context', l='str', n='Node', o1='Node', k1='str', o2='Node', k2='str'),
+        requires=LREQ + ['str_strip(l) != ""', 'str_strip(l) not in ctx.labels', 'str_strip(l) not in ctx.refs', 'o1 is not o2 or k1 != k2'],
+        ensures=['k1 in o1.idref', 'o1.idref[k1] is n', 'k2 in o2.idref', 'o2.idref[k2] is n'],
+        body="""
+ctx.ref(o1, k1, l)
+ctx.ref(o2, k2, l)
+ctx.label(l, n)
 """)
